@@ -223,9 +223,32 @@ def trait_contracts(cs, tier):
     return out
 
 
+def scalar_type_contracts(cs, tier):
+    """required_base/optional_base instantiated for the schema-defined types, with min/max/null taken from the XML (or the SBE defaults)"""
+    from .scalars import unit_contracts
+    sch, g, u = cs.schema, cs.gen, cs.unit
+    entries = []
+    for rid, e in g.scalar_types:
+        P0 = PRIMS[e.prim]
+        a = e.attrs
+
+        def val(attr, default):
+            if attr in a:
+                lit = num_literal(e.prim, a[attr]) if e.prim != "char" else str(ord(a[attr]) if len(a[attr]) == 1 else int(a[attr]))
+                return "NAN" if lit is None else "(" + lit + ")"
+            return default
+        P = dict(c=P0["c"], size=P0["size"], fp=P0["fp"], signed=P0["signed"], min=val("minValue", P0["min"]), max=val("maxValue", P0["max"]), null=val("nullValue", P0["null"]))
+        entries.append((rid, P, e.presence != "optional", e.presence == "optional", e.prim))
+    out = unit_contracts(u, tier, tag="[%s]" % cs.name, entries=entries)
+    for c in out:
+        c.props = {"C16"}
+    return out
+
+
 def contracts(tier):
     out = []
     for cs in corpus.schemas(tier):
+        out += scalar_type_contracts(cs, tier)
         out += cursor_contracts(cs, tier)
         out += size_fill_contracts(cs, tier)
         out += trait_contracts(cs, tier)
